@@ -74,7 +74,8 @@ class NestSeriesAccessor(Mapping):
         for chunk in self._series.array._chunked_array.iterchunks():
             struct_array = cast(pa.StructArray, chunk)
             for field in fields:
-                list_array = cast(pa.ListArray, struct_array.field(field))
+                # with the validity of the struct: a missing row is a null list whatever its children hold
+                list_array = cast(pa.ListArray, pa.compute.struct_field(struct_array, field))
                 list_chunks[field].append(list_array)
 
         list_series = {}
@@ -486,7 +487,8 @@ class NestSeriesAccessor(Mapping):
         list_chunks = []
         for nested_chunk in self._series.array._chunked_array.iterchunks():
             struct_array = cast(pa.StructArray, nested_chunk)
-            list_array = struct_array.field(field)
+            # with the validity of the struct: a missing row is a null list whatever its children hold
+            list_array = pa.compute.struct_field(struct_array, field)
             list_chunks.append(list_array)
         list_chunked_array = pa.chunked_array(list_chunks)
         return pd.Series(
